@@ -5,7 +5,7 @@ MCDims ==
     gr1 |-> {"self", "g2", "nosuch", "foreign-absent"}, gr2 |-> {"g1", "g3"}, gr3 |-> {"g1"},
     id1 |-> {"self", "i2", "nosuch", "unknown-prefix"}, id2 |-> {"i1", "i3"}, id3 |-> {"i1"},
     incm |-> {"s1", "nosuch", "s1-s2", "itself"}, incs1 |-> {"self", "s2", "the-module"}, incs2 |-> {"s1"},
-    belongs |-> {"other", "itself"}, imp |-> {"absent", "self", "a-submodule"},
+    belongs |-> {"other", "itself"}, belongs2 |-> {"absent-with-identity", "absent-with-typedef", "module-with-identity"}, imp |-> {"absent", "self", "a-submodule"},
     aug |-> {"container", "list", "leaf", "leaf-list", "choice", "case", "rpc", "input", "output", "notification", "anyxml", "absent", "unprefixed", "relative", "empty-path", "into-grouping-copy"},
     augpay |-> {"case", "uses-unknown", "empty", "same-name-twice", "nested-augment-target"},
     dev |-> {"leaf", "container", "absent", "rpc", "input", "case", "choice", "list", "leaf-list", "anyxml", "module-root"},
@@ -25,7 +25,7 @@ MCDims ==
     rev |-> {"garbage-date", "two-same", "import-by-absent-revision"},
     idref |-> {"no-base", "base-absent", "base-unknown-prefix", "in-typedef-cycle"},
     frac |-> {"zero", "nineteen", "on-string", "missing", "restated-in-derived", "sixty-four-min-max", "two-five-five-max", "forty", "huge"} ]
-MCDimSeq == <<"td1", "td2", "td3", "gr1", "gr2", "gr3", "id1", "id2", "id3", "incm", "incs1", "incs2", "belongs", "imp", "aug", "augpay",
+MCDimSeq == <<"td1", "td2", "td3", "gr1", "gr2", "gr3", "id1", "id2", "id3", "incm", "incs1", "incs2", "belongs", "belongs2", "imp", "aug", "augpay",
               "dev", "devkind", "top", "meta", "leafref", "choice", "key", "union", "enumx", "range", "rpcx", "ext", "listx", "cfgx", "rev", "idref", "frac">>
 ASSUME {MCDimSeq[k] : k \in 1..Len(MCDimSeq)} = DOMAIN MCDims
 ====
